@@ -13,6 +13,7 @@ import (
 	"fmt"
 	"strconv"
 	"strings"
+	"sync"
 
 	"github.com/welllog/golib/cryptz"
 
@@ -144,8 +145,26 @@ func offLayout(t []string) bool {
 func impl(c core.Case) []string {
 	out := make([]string, 0, len(c.Lines))
 	hdr := core.Toks(c.Lines[0])
+	var hb *histBufs
+	if len(hdr) == 3 && hdr[2] == "hist" {
+		// A history case must fail or pass because of ITS OWN calls, so that a replay (and every
+		// candidate of the shrinker) behaves the same in a fresh process: it runs alone (no call
+		// of another worker in between) and starts with warm-up calls on throw-away arguments,
+		// which displace whatever a library-level memo still holds from earlier cases.
+		implMu.Lock()
+		defer implMu.Unlock()
+		core.Guard(func() string { warmUp(); return "" })
+	} else {
+		implMu.RLock()
+		defer implMu.RUnlock()
+	}
 	if len(hdr) == 3 && hdr[2] == "x" {
 		out = append(out, "ok")
+	} else if len(hdr) == 3 && hdr[2] == "hist" {
+		// history mode: every call of the case takes its key, iv/nonce, additional data and
+		// dst from the SAME harness-owned backing arrays, overwritten in place between calls
+		out = append(out, "ok")
+		hb = newHistBufs()
 	} else {
 		out = append(out, "bad-op")
 	}
@@ -155,12 +174,69 @@ func impl(c core.Case) []string {
 			out = append(out, "bad-op")
 			continue
 		}
-		out = append(out, core.Guard(func() string { return step(t) }))
+		out = append(out, core.Guard(func() string { return step(t, hb) }))
 	}
 	return out
 }
 
-func step(t []string) string {
+var implMu sync.RWMutex
+
+// warmUp: one call of each helper family with arguments no case uses (own buffers).
+func warmUp() {
+	k := bytes.Repeat([]byte{0x5a}, 32)
+	d := make([]byte, 16)
+	_ = cryptz.AESCBCEncrypt(d, nil, k, make([]byte, 16))
+	_, _ = cryptz.AESCBCDecrypt(make([]byte, 16), d, bytes.Repeat([]byte{0x5b}, 24), make([]byte, 16))
+	_ = cryptz.AESGCMEncrypt(d, nil, bytes.Repeat([]byte{0x5c}, 16), make([]byte, 12), nil)
+	_ = cryptz.AESGCMDecrypt(d[:0], d, bytes.Repeat([]byte{0x5d}, 32), make([]byte, 12), nil)
+}
+
+// histBufs: the caller-owned buffers of a history case.  put(i, b) overwrites backing array i
+// in place with b and returns the slice of that array holding it (same address every call, so
+// a library that remembered the caller's slice instead of a copy sees the NEW bytes through
+// its stale reference); fill(n, v) hands out the one dst array, re-filled.  nil receiver =
+// the ordinary mode: fresh slices every call.
+type histBufs struct {
+	arr [4][]byte
+	dst []byte
+}
+
+func newHistBufs() *histBufs {
+	h := &histBufs{}
+	for i := range h.arr {
+		h.arr[i] = make([]byte, 512)
+	}
+	h.dst = make([]byte, 1<<17)
+	return h
+}
+
+func (h *histBufs) put(i int, b []byte) []byte {
+	if h == nil || len(b) > len(h.arr[i]) {
+		return b
+	}
+	// zero the tail too: nothing of the previous call survives except the address
+	for j := range h.arr[i] {
+		h.arr[i][j] = 0
+	}
+	copy(h.arr[i], b)
+	return h.arr[i][:len(b):len(b)]
+}
+
+func (h *histBufs) fill(n int, v byte) []byte {
+	if n < 0 {
+		n = 0
+	}
+	if h == nil || n > len(h.dst) {
+		return fillWith(n, v)
+	}
+	d := h.dst[:n:n]
+	for j := range d {
+		d[j] = v
+	}
+	return d
+}
+
+func step(t []string, hb *histBufs) string {
 	if len(t) == 0 {
 		return "bad-op"
 	}
@@ -248,7 +324,7 @@ func step(t []string) string {
 			}
 			args[i] = b
 		}
-		key, iv, data := args[2], args[3], args[4]
+		key, iv, data := hb.put(0, args[2]), hb.put(1, args[3]), args[4]
 		key0, iv0 := append([]byte{}, key...), append([]byte{}, iv...)
 		if t[0] == "cbcenc" {
 			kind, d, ok := parseLayout(t[1])
@@ -262,13 +338,13 @@ func step(t []string) string {
 			var dst, pt []byte
 			switch kind {
 			case "fresh":
-				dst, pt = fill(n), append([]byte{}, data...)
+				dst, pt = hb.fill(n, 0xaa), append([]byte{}, data...)
 			case "inplace":
 				// "plainText could pre grow padding length, so dst could reuse plainText memory"
 				if n < len(data) {
 					return "bad-op"
 				}
-				buf := fill(n)
+				buf := hb.fill(n, 0xaa)
 				copy(buf, data)
 				dst, pt = buf, buf[:len(data)]
 			}
@@ -293,7 +369,7 @@ func step(t []string) string {
 		case "fresh":
 			ct = append([]byte{}, data...)
 			if d == 0 {
-				dst = fill(cryptz.AESCBCDecryptLen(ct))
+				dst = hb.fill(cryptz.AESCBCDecryptLen(ct), 0xaa)
 			} else {
 				// off contract: filled with the byte |d| so that a longer dst can end in
 				// something that looks like a padding
@@ -301,7 +377,7 @@ func step(t []string) string {
 				if v < 0 {
 					v = -v
 				}
-				dst = fillWith(cryptz.AESCBCDecryptLen(ct)+d, byte(v%256))
+				dst = hb.fill(cryptz.AESCBCDecryptLen(ct)+d, byte(v%256))
 			}
 		case "inplace":
 			// "dst could reuse encryptText memory"
@@ -330,7 +406,7 @@ func step(t []string) string {
 			}
 			args[i] = b
 		}
-		key, nonce, ad, data := args[2], args[3], args[4], args[5]
+		key, nonce, ad, data := hb.put(0, args[2]), hb.put(1, args[3]), hb.put(2, args[4]), args[5]
 		if t[0] == "gcmenc" {
 			kind, d, ok := parseLayout(t[1])
 			if !ok || (kind == "inplace" && d != 0) {
@@ -340,10 +416,10 @@ func step(t []string) string {
 			var dst, pt []byte
 			switch kind {
 			case "fresh":
-				dst, pt = fill(n), append([]byte{}, data...)
+				dst, pt = hb.fill(n, 0xaa), append([]byte{}, data...)
 			case "inplace":
 				// "plainText could pre grow tagSize(default 16) so dst could reuse plainText memory"
-				buf := fill(n)
+				buf := hb.fill(n, 0xaa)
 				copy(buf, data)
 				dst, pt = buf, buf[:len(data)]
 			}
@@ -365,7 +441,7 @@ func step(t []string) string {
 		var dst []byte
 		switch kind {
 		case "fresh":
-			dst = fill(n + d)
+			dst = hb.fill(n+d, 0xaa)
 		case "inplace":
 			// "dst could reuse encryptText memory, like encryptText[:AESGCMDecryptLen(encryptText)]"
 			dst = ct[:n]
